@@ -11,8 +11,9 @@ import time
 from . import env
 from . import pool
 
-EVID_DIR = os.path.join(env.VERIF_ROOT, "evidence")
-REPLAY_DIR = os.path.join(env.VERIF_ROOT, "replays")
+_OUT = os.environ.get("VERIF_OUT_DIR") or env.VERIF_ROOT   # self-tests redirect their output
+EVID_DIR = os.path.join(_OUT, "evidence")
+REPLAY_DIR = os.path.join(_OUT, "replays")
 KNOWN_FILE = os.path.join(env.VERIF_ROOT, "KNOWN_FINDINGS.txt")
 
 LEVELS = {"C10": "fault_enumeration", "C16": "fault_enumeration"}
@@ -131,7 +132,11 @@ class Report:
             print("HARNESS-ERROR " + str(h)[:1500])
         wall = time.time() - self.t0
         cov = dict(coverage)
-        cov.setdefault("samples", samples or [])
+        if not samples:
+            samples = [{"note": "no case of this run met the non-triviality rule; see outcomes/aborted_unrelated"}]
+        cov.setdefault("samples", samples)
+        if not cov["samples"]:
+            cov["samples"] = samples
         cov["known_findings_seen"] = {k: v["count"] for k, v in self.known_seen.items()}
         cov["harness_errors"] = len(self.harness_errors)
         ev = {
@@ -147,7 +152,11 @@ class Report:
         path = os.path.join(EVID_DIR, f"{self.prop}.json")
         with open(path, "w") as f:
             json.dump(ev, f, indent=1, default=_json_default)
-        validate_evidence(path)
+        try:
+            validate_evidence(path)
+        except Exception as e:
+            self.harness_errors.append("evidence file does not validate: " + str(e)[:300])
+            print("HARNESS-ERROR evidence file does not validate: " + str(e)[:300])
         print(f"[{self.prop} {self.tier}] seed={self.seed} evaluations={cov.get('evaluations')} "
               f"nontrivial={cov.get('distinct_nontrivial')} violations={n_viol} "
               f"known={len(self.known_seen)} harness_errors={len(self.harness_errors)} wall={wall:.1f}s")
